@@ -25,6 +25,7 @@ as testing.
 -/
 import Helm.Lemmas.Conc
 import Helm.Lemmas.ConcQ
+import Helm.Gen.Tables
 
 namespace Helm.Props.C09
 open Helm.Ledger Helm.Conc
@@ -137,5 +138,12 @@ example :
     (run w0 [0, 1, 0, 1, 0, 1, 0, 1, 0, 1]).procs.map (·.pc) = [.done true, .done false] ∧
     (run w0 [1, 0, 1, 0, 1, 0, 1, 0, 1, 0]).procs.map (·.pc) = [.done false, .done true] ∧
     (run w0 [0, 0, 0, 0, 0, 1, 1, 1, 1, 1]).procs.map (·.pc) = [.done true, .done true] := by decide
+
+/-- The tie to the source of the in-progress test: the statuses `Status.IsPending` counts as an operation in
+flight are the three pending ones -- an upgrade refuses to start over any of them, the rollback of an atomic
+upgrade included (regenerated from pkg/release/v1/status.go at every run). -/
+theorem pending_statuses_are_the_three :
+    Helm.Gen.pendingStatuses = ["StatusPendingInstall", "StatusPendingRollback", "StatusPendingUpgrade"] := by
+  decide
 
 end Helm.Props.C09
